@@ -645,6 +645,12 @@ package bkl
 //@   modifies Parser.docs, Document.Data, Document.Parents
 //@ func Parser.MergeFile(p, path) (err)
 //@   property C02
+//@   property C03
+//@   uses rmemApp
+//@   at call Parser.mergeFile#1
+//@     assert (forall ((r Int)) (=> (rmem r (file.docs f)) (not (and ((_ is VMap) (Document.Data r)) (not (= (select (mc (Document.Data r)) "$parent") VAbsent))))))   [C03]
+//@   loop 1
+//@     invariant (forall ((r Int)) (=> (rmem r done) (not (and ((_ is VMap) (Document.Data r)) (not (= (select (mc (Document.Data r)) "$parent") VAbsent))))))
 //@   modifies Parser.docs, Document.Data, Document.Parents
 //@ func Parser.MergeFileLayers(p, path) (err)
 //@   property C02
@@ -685,6 +691,8 @@ package bkl
 
 //@ func Parser.loadFile(p, path, child) (res, err)
 //@   property C18
+//@   ensures (=> (not (isErr err)) (= (file.id res) (ite (= child 0) path (str.++ (old (file.id child)) "|" path))))
+//@   ensures (forall ((r Int)) (=> (< r allocTop) (= (file.id r) (old (file.id r)))))
 //@   effects read-content:os.Root.Open, read-content:io.ReadAll, probe
 //@   ensures (=> (not (isErr err)) (and (>= res allocTop) (not (= res 0))))
 //@   ensures (=> (not (isErr err)) (= (file.depth res) (ite (= child 0) 0 (+ (old (file.depth child)) 1))))
@@ -695,13 +703,19 @@ package bkl
 //@     invariant (forall ((r Int)) (=> (< r (old allocTop)) (= (file.depth r) (old (file.depth r)))))
 //
 //@ func Parser.loadFileAndParents(p, path, child) (res, err)
+//@   property C03
+//@   uses rlastSnoc
 //@   requires (=> (not (= child 0)) (>= (file.depth child) 0))
+//@   ensures (=> (not (isErr err)) (= (file.id (rlast res)) (ite (= child 0) path (str.++ (old (file.id child)) "|" path))))              [C03]
+//@   ensures (forall ((r Int)) (=> (< r allocTop) (= (file.id r) (old (file.id r)))))
 //@   ensures (forall ((r Int)) (=> (< r allocTop) (= (file.depth r) (old (file.depth r)))))
 //@   decreases (- 1001 (ite (= child 0) (- 1) (file.depth child)))
 //@   loop 1
 //@     invariant (forall ((r Int)) (=> (< r (old allocTop)) (= (file.depth r) (old (file.depth r)))))
 //@     invariant (and (<= (file.depth f) 1000) (< f allocTop) (not (= f 0)))
 //@     invariant (= (file.depth f) (ite (= child 0) 0 (+ (old (file.depth child)) 1)))
+//@     invariant (= (file.id f) (ite (= child 0) path (str.++ (old (file.id child)) "|" path)))
+//@     invariant (forall ((r Int)) (=> (< r (old allocTop)) (= (file.id r) (old (file.id r)))))
 
 // termination of the $encode dispatch: "flags" expands to two transforms that are not "flags"
 //@ func process2EncodeAny(obj, mergeFrom, mergeFromDocs, v, depth) (res, err)
@@ -923,3 +937,34 @@ package bkl
 //@   ensures (= (isErr err) (= (fmtByName name) 0))
 //@   ensures (=> (isErr err) (= err ErrUnknownFormat))
 //@   ensures (=> (not (isErr err)) (= res (fmtByName name)))
+
+// ------------------------------------------------------------------------------------------------- file.go, filepath.go (layer resolution, C03)
+
+//@ func findFile(path) (res) trusted
+//@   ensures (= res (findFileF path))
+//
+//@ func isStdin(path) (res) trusted
+//@   ensures (= res (isStdinF path))
+//
+//@ func ext(path) (res) trusted
+//@   ensures (= (extOK path) (not (= (fmtByName res) 0)))
+//
+//@ func file.parentsFromFilename(f) (res, err)
+//@   property C03
+//@   ensures (=> (isStdinF (file.path f)) (and (not (isErr err)) (= res SNil)))                                                            [C03]
+//@   ensures (=> (and (not (isStdinF (file.path f))) (< (sllen (strSplit (pathBase (file.path f)) ".")) 2)) (= err ErrInvalidFilename))     [C03]
+//@   ensures (=> (and (not (isStdinF (file.path f))) (= (sllen (strSplit (pathBase (file.path f)) ".")) 2)) (and (not (isErr err)) (= res SNil)))   [C03]
+//@   ensures (=> (and (not (isStdinF (file.path f))) (> (sllen (strSplit (pathBase (file.path f)) ".")) 2))                                [C03]
+//@              (ite (= (findFileF (parentLayerPath (file.path f))) "")
+//@                   (= err ErrMissingFile)
+//@                   (and (not (isErr err)) (= res (SCons (findFileF (parentLayerPath (file.path f))) SNil)))))
+//
+//@ func globFiles(path) (res, err)
+//@   property C03
+//@   uses allDotsApp, sappNil, ssnocApp
+//@   ensures (=> (not (isErr err)) (allDots res (strCount (str.++ path ".*") ".")))                                                        [C03]
+//@   loop 1
+//@     invariant (allDots ret patDots)
+//
+//@ func file.toAbsolutePaths(f, paths) (res, err)
+//@   property C03
